@@ -79,8 +79,9 @@ func (rs RootSet) elemOf() RootSet {
 
 // Write is one abstract store effect.
 type Write struct {
-	Loc  string
-	Root Root
+	Loc     string
+	Root    Root
+	Shallow bool // the written cell lies inside the object the root pointer itself points at (no load in between)
 }
 
 func (w Write) String() string { return w.Loc + "@" + w.Root.String() }
@@ -700,6 +701,53 @@ func (e *Effects) addSite(fe *fnEffects, in ssa.Instruction, direct bool, callee
 	fe.sites = append(fe.sites, &WriteSite{Instr: in, Writes: ws, Callee: callee, Direct: direct})
 }
 
+// shallowParam: addr is the pointer parameter itself or a field/element
+// address computed from it without any load.
+func shallowAddr(addr ssa.Value) bool {
+	for {
+		switch a := addr.(type) {
+		case *ssa.Parameter:
+			_, isPtr := a.Type().Underlying().(*types.Pointer)
+			return isPtr
+		case *ssa.FieldAddr:
+			addr = a.X
+		case *ssa.IndexAddr:
+			if _, isPtr := a.X.Type().Underlying().(*types.Pointer); !isPtr {
+				return false
+			}
+			addr = a.X
+		default:
+			return false
+		}
+	}
+}
+
+// expandFresh replaces fresh roots by the non-fresh roots of what the fresh
+// objects contain (a pointer to a local copy still leads to shared memory
+// one level down).
+func (e *Effects) expandFresh(fe *fnEffects, rs RootSet) []Root {
+	out := RootSet{}
+	seen := map[string]bool{}
+	var visit func(r Root)
+	visit = func(r Root) {
+		if r.Kind != 'f' {
+			out[r] = true
+			return
+		}
+		if seen[r.Name] {
+			return
+		}
+		seen[r.Name] = true
+		for q := range fe.contents[r.Name] {
+			visit(q)
+		}
+	}
+	for r := range rs {
+		visit(r)
+	}
+	return nonFresh(out)
+}
+
 func nonFresh(rs RootSet) []Root {
 	var out []Root
 	for r := range rs {
@@ -725,19 +773,19 @@ func (e *Effects) localWrites(fe *fnEffects) {
 					if p, ok := x.Addr.(*ssa.Parameter); ok && strings.HasPrefix(loc, "DEREF:") {
 						fe.derefW[e.paramIndex(fe.fn, p)] = true
 					}
-					ws = append(ws, Write{l, r})
+					ws = append(ws, Write{Loc: l, Root: r, Shallow: shallowAddr(x.Addr)})
 				}
 				e.addSite(fe, in, true, nil, ws)
 			case *ssa.MapUpdate:
 				var ws []Write
 				for _, r := range nonFresh(e.rootsOf(fe, x.Map)) {
-					ws = append(ws, Write{"MAP:" + types.TypeString(x.Map.Type(), func(*types.Package) string { return "" }), r})
+					ws = append(ws, Write{Loc: "MAP:" + types.TypeString(x.Map.Type(), func(*types.Package) string { return "" }), Root: r})
 				}
 				e.addSite(fe, in, true, nil, ws)
 			case *ssa.Send:
 				var ws []Write
 				for _, r := range nonFresh(e.rootsOf(fe, x.Chan)) {
-					ws = append(ws, Write{"CHAN", r})
+					ws = append(ws, Write{Loc: "CHAN", Root: r})
 				}
 				e.addSite(fe, in, true, nil, ws)
 			case *ssa.Call:
@@ -769,25 +817,25 @@ func (e *Effects) localCallWrites(fe *fnEffects, in ssa.Instruction, c *ssa.Call
 					if e.isStackTyped(args[0].Type()) {
 						loc = "APPEND:stack"
 					}
-					ws = append(ws, Write{loc, r})
+					ws = append(ws, Write{Loc: loc, Root: r})
 				}
 			}
 		case "copy":
 			if len(args) > 0 {
 				for _, r := range nonFresh(e.rootsOf(fe, args[0])) {
-					ws = append(ws, Write{"COPY", r})
+					ws = append(ws, Write{Loc: "COPY", Root: r})
 				}
 			}
 		case "delete":
 			if len(args) > 0 {
 				for _, r := range nonFresh(e.rootsOf(fe, args[0])) {
-					ws = append(ws, Write{"MAP:" + types.TypeString(args[0].Type(), func(*types.Package) string { return "" }), r})
+					ws = append(ws, Write{Loc: "MAP:" + types.TypeString(args[0].Type(), func(*types.Package) string { return "" }), Root: r})
 				}
 			}
 		case "clear":
 			if len(args) > 0 {
 				for _, r := range nonFresh(e.rootsOf(fe, args[0])) {
-					ws = append(ws, Write{"CLEAR", r})
+					ws = append(ws, Write{Loc: "CLEAR", Root: r})
 				}
 			}
 		}
@@ -811,10 +859,10 @@ func (e *Effects) localCallWrites(fe *fnEffects, in ssa.Instruction, c *ssa.Call
 		var ws []Write
 		if len(args) > 0 {
 			for _, r := range nonFresh(e.rootsOf(fe, args[0])) {
-				ws = append(ws, Write{loc, r})
+				ws = append(ws, Write{Loc: loc, Root: r})
 			}
 			if strings.HasPrefix(loc, "EXT:stdout") {
-				ws = append(ws, Write{loc, Root{Kind: 'g', Name: "os.Stdout"}})
+				ws = append(ws, Write{Loc: loc, Root: Root{Kind: 'g', Name: "os.Stdout"}})
 			}
 		}
 		e.addSite(fe, in, true, callee, ws)
@@ -831,7 +879,7 @@ func (e *Effects) localCallWrites(fe *fnEffects, in ssa.Instruction, c *ssa.Call
 			continue
 		}
 		for _, r := range nonFresh(e.rootsOf(fe, a)) {
-			ws = append(ws, Write{"EXT?:" + name, r})
+			ws = append(ws, Write{Loc: "EXT?:" + name, Root: r})
 		}
 	}
 	e.addSite(fe, in, true, callee, ws)
@@ -852,16 +900,22 @@ func (e *Effects) instantiate(fe *fnEffects, c *ssa.CallCommon, ce *fnEffects, w
 			loc = e.classifyAddr(arg)
 		}
 		var out []Write
-		for _, r := range nonFresh(e.rootsOf(fe, arg)) {
+		if w.Shallow && !w.Root.Elem {
+			for _, r := range nonFresh(e.rootsOf(fe, arg)) {
+				out = append(out, Write{Loc: loc, Root: r, Shallow: shallowAddr(arg)})
+			}
+			return out
+		}
+		for _, r := range e.expandFresh(fe, e.rootsOf(fe, arg)) {
 			if w.Root.Elem {
 				r.Elem = true
 			}
-			out = append(out, Write{loc, r})
+			out = append(out, Write{Loc: loc, Root: r})
 		}
 		return out
 	case 'v':
 		// free variable of a closure: opaque here
-		return []Write{{w.Loc, Root{Kind: 'u'}}}
+		return []Write{{Loc: w.Loc, Root: Root{Kind: 'u'}}}
 	default:
 		return []Write{w}
 	}
